@@ -387,6 +387,7 @@ DEFAULT_PROFILE = dict(
     w=dict(match=30, appendm=8, wait=3, assign=8, assignstr=3, appendc=3, delete=2, hook=8, finish=3, yield_=0,
            loop=6, case=8, gcase=0, optional=6, try_=7, foreach=4, if_=5, break_=0),
     eof=False, yields=False, close_paths=True, hazards=False, strict_after_open=0.05,
+    str_defaults=0.0, str_default_too_long=0.0, assign_high_bytes=0.0, big_caps=0.0,
     str_caps=(1, 2, 3, 4, 6), regex_prob=0.35, casei_prob=0.1, binary_prob=0.08, high_bytes=0.05,
 )
 
@@ -423,13 +424,31 @@ class Gen:
             term = rng.random() < 0.7
             if term and cap < 2:
                 cap = 2
-            outs.append(N("out", name="s%d" % i, typ="str" if term else "ustr", size=cap, default=None))
+            if rng.random() < self.p["big_caps"]:
+                cap = rng.choice([255, 256, 257])
+            default = None
+            if rng.random() < self.p["str_defaults"]:
+                eff = cap - 1 if term else cap
+                n = rng.choice([0, max(0, eff - 1), eff])
+                if rng.random() < self.p["str_default_too_long"]:
+                    n = eff + 1
+                n = min(n, 12) if cap < 200 else n
+                default = bytes(self.str_byte() for _ in range(n))
+            o = N("out", name="s%d" % i, typ="str" if term else "ustr", size=cap, default=default)
+            if default is not None and rng.random() < 0.2 and default:
+                o.default_form = "b"
+            outs.append(o)
         if rng.random() < 0.25:
             outs.append(N("out", name="r0", typ="raw", raw_type=rng.choice(["uint16_t", "uint32_t", "uint8_t"]), default=None))
         hooks = ["h%d" % i for i in range(rng.randrange(1, 4))]
         fcodes = ["F%d" % i for i in range(rng.randrange(0, 3))]
         ycodes = ["Y%d" % i for i in range(rng.randrange(1, 3))] if self.p["yields"] else []
         return outs, hooks, fcodes, ycodes
+
+    def str_byte(self):
+        if self.rng.random() < self.p["assign_high_bytes"]:
+            return self.rng.choice([0x80, 0xe9, 0xff, 0x01, 0x7f])
+        return self.rng.choice(ALPHA)
 
     # -- patterns ----------------------------------------------------------------------------------
     def first_byte(self, avoid, pool=None):
@@ -574,7 +593,7 @@ class Gen:
             cap = o.size - 1 if o.typ == "str" else o.size
             n = rng.randrange(0, max(1, cap) + 1)
             n = min(n, cap)
-            bs = bytes(rng.choice(ALPHA) for _ in range(n))
+            bs = bytes(self.str_byte() for _ in range(n))
             return N("assignstr", var=o.name, bs=bs)
         if kind == "delete":
             return N("delete", var=rng.choice(bufs).name)
